@@ -235,6 +235,17 @@ class AbsEval:
             return {TOP}
         if isinstance(e, ast.NamedExpr):
             return self.eval(e.value, st)
+        if isinstance(e, ast.BinOp) and isinstance(e.op, (ast.Add, ast.Sub)):
+            out = set()
+            for l in self.eval(e.left, st):
+                for r in self.eval(e.right, st):
+                    if l[0] == "const" and r[0] == "const" and isinstance(l[1], int) and isinstance(r[1], int) \
+                            and not isinstance(l[1], bool) or (l[0] == "const" and r[0] == "const"
+                                                                 and isinstance(l[1], (int, bool)) and isinstance(r[1], (int, bool))):
+                        out.add(const(int(l[1]) + int(r[1]) if isinstance(e.op, ast.Add) else int(l[1]) - int(r[1])))
+                    else:
+                        out.add(TOP)
+            return out
         return {TOP}
 
     def _boolop(self, op, values, st, results):
